@@ -58,7 +58,7 @@ Fixpoint ttree_eqb (a b : ttree) {struct a} : bool :=
          end) k1 k2
   end.
 
-(* the standard library's text of floats (key: value*128), times (key: nanoseconds) and note
+(* the standard library's text of floats (key: the integer key of the float), times (key: nanoseconds) and note
    dates (key: seconds), as printed by the harness with strconv / time.Format *)
 Record oracle := { o_floats : list (Z * list Z); o_times : list (Z * list Z); o_dates : list (Z * list Z) }.
 
